@@ -407,7 +407,7 @@ func (h *harness) niCase(c *niCase, comp compiler.Name, variant int, r *vh.Rng, 
 	if leaves, err := cborLeaves(proof); err == nil {
 		budget := 48
 		if h.thorough || h.a.Search {
-			budget = 400
+			budget = 120
 		}
 		if c.light {
 			budget = 3
